@@ -23,6 +23,10 @@ KEYSETS = {
     "triclinic-21": list(KEYS),
     "monoclinic-13": ["c11", "c12", "c13", "c15", "c22", "c23", "c25", "c33", "c35", "c44", "c46", "c55", "c66"],
     "trigonal-7+": ["c11", "c12", "c13", "c14", "c15", "c22", "c23", "c24", "c25", "c33", "c44", "c46", "c55", "c56", "c66"],
+    # the nine orthotropic components plus shear-shear couplings only (no axial-shear component): a subset no crystal class produces,
+    # which the statement admits ("any subset of non-zero components containing the nine orthotropic ones")
+    "orthotropic-9 + c46": ORTHO + ["c46"],
+    "orthotropic-9 + c45, c56": ORTHO + ["c45", "c56"],
 }
 
 
@@ -108,6 +112,9 @@ def run_keyset(chk, cc, name, keys, tier, rng):
     for rec in recs:
         it, iv = rec["index"]
         M = rec["matrix"]
+        if numpy.asarray(M, dtype=object).shape != (6, 6):
+            fails.append("a %s block is inverted instead of the 6x6 Voigt matrix of the tensor" % (numpy.asarray(M, dtype=object).shape,))
+            continue
         for i in range(6):
             for j in range(6):
                 k = "c%d%d" % tuple(sorted((i + 1, j + 1)))
@@ -582,7 +589,7 @@ def main():
     chk.encode(cc.Calculator._calculate_compliances, cc.CijVolumeBaseInterface)
     Z.reset_log()
     rng = random.Random(seed() + 7)
-    names = ["orthotropic-9", "triclinic-21"] if tier == "quick" else list(KEYSETS)
+    names = ["orthotropic-9", "triclinic-21", "orthotropic-9 + c46"] if tier == "quick" else list(KEYSETS)
     for n in names:
         run_keyset(chk, cc, n, KEYSETS[n], tier, rng)
     history_obligation(chk, cc, names, rng)
